@@ -145,16 +145,32 @@ if [ ! -x "$OUT" ]; then
   WRAPS=""
   for s in tinyjambu_permutation_128 tinyjambu_permutation_192 tinyjambu_permutation_256 \
            tinyjambu_setup_128 tinyjambu_absorb_128 tinyjambu_generate_tag_128 tinyjambu_setup_192 tinyjambu_absorb_192 tinyjambu_generate_tag_192 \
-           tinyjambu_setup_256 tinyjambu_absorb_256 tinyjambu_generate_tag_256 tinyjambu_aead_check_tag tinyjambu_clean tinyjambu_trng_generate \
+           tinyjambu_setup_256 tinyjambu_absorb_256 tinyjambu_generate_tag_256 tinyjambu_aead_check_tag tinyjambu_clean \
            tinyjambu_hash tinyjambu_hash_init tinyjambu_hash_reinit tinyjambu_hash_free tinyjambu_hash_update tinyjambu_hash_finalize \
            tinyjambu_hmac tinyjambu_hmac_init tinyjambu_hmac_reinit tinyjambu_hmac_free tinyjambu_hmac_update tinyjambu_hmac_finalize; do
     WRAPS="$WRAPS -Wl,--wrap=$s"
   done
+  # the system entropy source is an internal function: find it by what it is (a global function of the library whose name
+  # contains "trng_generate"), not by one fixed name, and generate the seam for that name
+  TRNGSYM=$( (cd "$T/o" && nm -g --defined-only *.o 2>/dev/null | awk '$2=="T" && $3 ~ /trng_generate/ {print $3}' | head -1) )
+  if [ -n "$TRNGSYM" ]; then
+    cat > "$T/trngshim.c" <<EOF2
+extern void sim_point_c(int, int); extern int sim_trng_pre(void); extern void sim_trng_post(int, const unsigned char *);
+extern int __real_$TRNGSYM(unsigned char *out);
+int __wrap_$TRNGSYM(unsigned char *out) { int r, on; sim_point_c(3, 144); on = sim_trng_pre(); r = __real_$TRNGSYM(out); if (on) sim_trng_post(r, out); sim_point_c(3, 145); return r; }
+extern int $TRNGSYM(unsigned char *out);
+int sim_trng_call(unsigned char *out) { return $TRNGSYM(out); }
+EOF2
+    WRAPS="$WRAPS -Wl,--wrap=$TRNGSYM"
+  else
+    printf 'int sim_trng_call(unsigned char *out) { (void)out; return -2; }\n' > "$T/trngshim.c"
+  fi
+  gcc -c "$T/trngshim.c" -o "$T/trngshim.o"
   if [ "$HARN_KIND" = asan ]; then LD="clang++ -fsanitize=address"; else LD="g++"; fi
   # variant name and TRNG flavor are baked in through a tiny generated object
   printf 'const char *sim_variant_name = "%s";\nconst char *sim_trng_flavor_name = "%s";\n' "$VARIANT" "$TRNG_FLAVOR" > "$T/variant.c"
   gcc -c "$T/variant.c" -o "$T/variant.o"
-  if ! $LD -o "$OUT.tmp" "$H"/*.o "$T/variant.o" "$T"/o/*.o $WRAPS > "$T/link.log" 2>&1; then
+  if ! $LD -o "$OUT.tmp" "$H"/*.o "$T/variant.o" "$T/trngshim.o" "$T"/o/*.o $WRAPS > "$T/link.log" 2>&1; then
     echo "build.sh: link failed (variant $VARIANT):" >&2; head -30 "$T/link.log" >&2; exit 2
   fi
   mv "$OUT.tmp" "$OUT"
